@@ -202,16 +202,25 @@ func ZZ_C12_activeDuringCanaryLeavesForeignPodsAlone() {
 	bare := &corev1.Pod{ObjectMeta: metav1.ObjectMeta{Name: "web-0", Namespace: zzNS, Labels: map[string]string{"app": "web"}},
 		Spec: corev1.PodSpec{NodeName: foreignNode}, Status: corev1.PodStatus{Phase: corev1.PodRunning, Conditions: []corev1.PodCondition{{Type: corev1.PodReady, Status: corev1.ConditionTrue}}}}
 	c.Pods = append(c.Pods, other, bare)
+	// a third replica set of foo without role (an earlier version), and a pod that still carries its stamps
+	// (replica-set label, template hash) but whose ExtendedDaemonSet name label was rewritten to bar: no pod of foo
+	rsLeft := zzRS("foo-left", "hash-left")
+	c.ERS = append(c.ERS, rsLeft)
+	rewritten := zzPod("rewritten", foreignNode, rsLeft.Name, "hash-left", 0, corev1.PodRunning, true, nondet.Base().Add(-7200*1e9))
+	rewritten.Labels[datadoghqv1alpha1.ExtendedDaemonSetNameLabelKey] = "bar"
+	c.Pods = append(c.Pods, rewritten)
 	synced := rsOld.Name
-	switch nondet.String("syncedReplicaSet", "active", "canary") {
+	switch nondet.String("syncedReplicaSet", "active", "canary", "leftover") {
 	case "canary":
 		synced = rsNew.Name
+	case "leftover":
+		synced = rsLeft.Name
 	}
 	_, err := zzReconcile(zzReconciler(c, nondet.Bool("nodeAffinitySupported")), zzNS, synced)
 	nondet.Assert("C12.during-canary.noerror", err == nil)
 	for _, e := range c.Writes() {
 		if e.Kind == "Pod" {
-			nondet.Assert("C12.during-canary.foreign-pod-untouched", e.Name != "bar-pod" && e.Name != "web-0")
+			nondet.Assert("C12.during-canary.foreign-pod-untouched", e.Name != "bar-pod" && e.Name != "web-0" && e.Name != "rewritten")
 		}
 	}
 	alive := 0
@@ -224,6 +233,9 @@ func ZZ_C12_activeDuringCanaryLeavesForeignPodsAlone() {
 	for _, s := range c.ERS {
 		if s.Name == synced {
 			nondet.Assert("C12.during-canary.status-counts-own-pods-only", s.Status.Current <= 1 && s.Status.Ready <= 1)
+			if synced == rsLeft.Name {
+				nondet.Assert("C12.during-canary.leftover-counts-no-foreign-pod", s.Status.Current == 0 && s.Status.Ready == 0 && s.Status.Available == 0)
+			}
 		}
 	}
 	nondet.Reach("C12.during-canary.active-synced", synced == rsOld.Name)
